@@ -89,7 +89,7 @@ def run(F, chk):
             continue
         n += 1
         X1.sites += 1
-        toks = expand_closures(F, pr.operand(blk.term.args[0]))
+        toks = expand_closures(F, pr.operand(blk.term.args[0], at=blk.i))
         calls = calls_in(toks)
         params = params_in(toks)
         bad = [c for c in calls if FORBIDDEN.search(c)]
@@ -121,7 +121,7 @@ def run(F, chk):
             ncall += 1
             X1.sites += 1
             X1.fn(b.path)
-            toks = pr2.operand(blk.term.args[1])
+            toks = pr2.operand(blk.term.args[1], at=blk.i)
             calls = calls_in(toks)
             if any(c.endswith('TempDir::path') or 'tempfile::' in c for c in calls):
                 X1.ok(sample={'caller': b.path, 'target_dir': 'TempDir::path()'})
@@ -132,7 +132,7 @@ def run(F, chk):
                 continue
             nins += 1
             X1.sites += 1
-            toks = pr2.operand(blk.term.args[2])
+            toks = pr2.operand(blk.term.args[2], at=blk.i)
             calls = calls_in(toks)
             if any(c.endswith('Path::file_stem') for c in calls) and not any('list_archive' in c for c in calls):
                 X1.ok(sample={'rename_map_insert_at': b.loc(blk.term.sp), 'value_from': 'Path::file_stem()'})
